@@ -14,14 +14,17 @@ package main
 
 import (
 	"archive/zip"
+	"bufio"
 	"bytes"
 	"crypto/sha1"
 	"encoding/hex"
+	"encoding/json"
 	"fmt"
 	"image"
 	"image/png"
 	"math/rand"
 	"os"
+	"os/exec"
 	"os/signal"
 	"path/filepath"
 	"sort"
@@ -33,7 +36,12 @@ import (
 	"github.com/zerx-lab/wordZero/pkg/markdown"
 )
 
-func init() { register("saveio", runSaveIO) }
+func init() {
+	register("saveio", func(c Case, emit Emitter) { runSaveIO(c, emit, false) })
+	// the same executor restricted to the saves whose target class depends on file permissions;
+	// run by the parent as an unprivileged child process when the parent itself is privileged
+	register("saveiochild", func(c Case, emit Emitter) { runSaveIO(c, emit, true) })
+}
 
 var (
 	sioOnce     sync.Once
@@ -372,36 +380,49 @@ func sioLimited(k int, f func()) (limErr string) {
 type sioRef struct{ n0, dirstart, cmax int }
 
 // call performs one save through `via` to target t with the file-size limit k and returns the observation.
-func (x *sioCtx) call(via string, t *sioTarget, k int, ref *sioRef) Ev {
+//
+// tbAfter = false: the in-memory serialisation is taken immediately before the call (the
+// property's observation point); tbAfter = true: immediately after it instead, so that the call
+// is not preceded by a ToBytes that has already refreshed every part (only used for calls
+// without a limit, where the save must not change what the document serialises to).
+func (x *sioCtx) call(via string, t *sioTarget, k int, ref *sioRef, tbAfter bool) Ev {
 	t.reset()
 	defer t.done()
-	ev := Ev{"ev": "save", "case": x.c.ID, "via": via, "target": t.class, "k": k}
+	ev := Ev{"ev": "save", "case": x.c.ID, "via": via, "target": t.class, "k": k, "tbwhen": "before"}
+	if tbAfter {
+		ev["tbwhen"] = "after"
+	}
 
 	// the in-memory serialisation at this moment
 	var before []byte
 	var src string
 	var conv *markdown.Converter
-	tb, _ := guard(func() string {
-		if via == "Save" {
-			b, err := x.doc.ToBytes()
+	takeTB := func() {
+		tb, _ := guard(func() string {
+			if via == "Save" {
+				b, err := x.doc.ToBytes()
+				before = b
+				return errRet(err)
+			}
+			document.VerifResetGlobals()
+			conv = markdown.NewConverter(markdown.DefaultOptions())
+			d2, err := conv.ConvertBytes([]byte(x.md.String()), nil)
+			if err != nil {
+				return "err"
+			}
+			b, err := d2.ToBytes()
 			before = b
 			return errRet(err)
+		})
+		ev["tb"] = tb
+		if tb == "ok" {
+			ev["before"] = sioParts(ReadPkg(before))
+		} else {
+			ev["before"] = []map[string]interface{}{}
 		}
-		document.VerifResetGlobals()
-		conv = markdown.NewConverter(markdown.DefaultOptions())
-		d2, err := conv.ConvertBytes([]byte(x.md.String()), nil)
-		if err != nil {
-			return "err"
-		}
-		b, err := d2.ToBytes()
-		before = b
-		return errRet(err)
-	})
-	ev["tb"] = tb
-	if tb == "ok" {
-		ev["before"] = sioParts(ReadPkg(before))
-	} else {
-		ev["before"] = []map[string]interface{}{}
+	}
+	if !tbAfter {
+		takeTB()
 	}
 	if via != "Save" {
 		// the Markdown source next to nothing else; BatchConvert derives the output name from it
@@ -432,6 +453,9 @@ func (x *sioCtx) call(via string, t *sioTarget, k int, ref *sioRef) Ev {
 	}
 	ev["ret"] = ret
 	ev["pmsg"] = pmsg
+	if tbAfter {
+		takeTB()
+	}
 
 	// what is on disk now
 	size := -1
@@ -507,7 +531,57 @@ func sioOffsets(n0, points, edge int) []int {
 	return out
 }
 
-func runSaveIO(c Case, emit Emitter) {
+func sioPermClass(class string) bool { return class == "rodir" || class == "rofile" }
+
+// sioUnprivileged re-executes the whole behaviour in a child process running as "nobody" and
+// returns the observations of its permission-dependent saves; nil if that is not possible here.
+func sioUnprivileged(c Case) []Ev {
+	dir, err := os.MkdirTemp("", "sio-child-")
+	if err != nil {
+		return nil
+	}
+	defer os.RemoveAll(dir)
+	const nobody = 65534
+	if os.Chown(dir, nobody, nobody) != nil || os.Chmod(dir, 0o755) != nil {
+		return nil
+	}
+	cf, of := filepath.Join(dir, "case.ndjson"), filepath.Join(dir, "obs.ndjson")
+	line, _ := json.Marshal(c)
+	if os.WriteFile(cf, append(line, '\n'), 0o644) != nil {
+		return nil
+	}
+	self, err := os.Executable()
+	if err != nil {
+		return nil
+	}
+	cmd := exec.Command(self, "saveiochild", cf, of)
+	cmd.Dir = dir
+	cmd.Env = append(os.Environ(), "TMPDIR=/tmp", "HOME="+dir)
+	cmd.SysProcAttr = &syscall.SysProcAttr{Credential: &syscall.Credential{Uid: nobody, Gid: nobody}}
+	if err := cmd.Run(); err != nil {
+		return nil
+	}
+	f, err := os.Open(of)
+	if err != nil {
+		return nil
+	}
+	defer f.Close()
+	var out []Ev
+	sc := bufio.NewScanner(f)
+	sc.Buffer(make([]byte, 1<<20), 1<<28)
+	for sc.Scan() {
+		var e Ev
+		if json.Unmarshal(sc.Bytes(), &e) != nil {
+			return nil
+		}
+		if e["ev"] == "save" || e["ev"] == "skip" {
+			out = append(out, e)
+		}
+	}
+	return out
+}
+
+func runSaveIO(c Case, emit Emitter, onlyPerm bool) {
 	sioSetup()
 	document.VerifResetGlobals()
 	work, err := os.MkdirTemp("", fmt.Sprintf("sio-%d-", c.ID))
@@ -518,6 +592,9 @@ func runSaveIO(c Case, emit Emitter) {
 	defer os.RemoveAll(work)
 	x := &sioCtx{c: c, doc: document.New(), work: work, rnd: rand.New(rand.NewSource(seed*7919 + 17))}
 	emit(Ev{"ev": "reset", "case": c.ID})
+	// permission-dependent target classes cannot fail for a privileged process: delegate them
+	var childEvs []Ev
+	childTried := false
 	for i, op := range c.Steps {
 		if op.Name() == "Group" {
 			continue // names the scenario group the behaviour was generated from
@@ -528,14 +605,26 @@ func runSaveIO(c Case, emit Emitter) {
 			continue
 		}
 		via, class := op.Str("via"), op.Str("target")
-		if sioPriv && (class == "rodir" || class == "rofile") {
-			emit(Ev{"ev": "skip", "case": c.ID, "target": class, "why": "privileged"})
+		if onlyPerm && !sioPermClass(class) {
+			continue
+		}
+		if sioPriv && sioPermClass(class) {
+			if !onlyPerm && !childTried {
+				childTried = true
+				childEvs = sioUnprivileged(c)
+				for _, e := range childEvs {
+					emit(e)
+				}
+			}
+			if childEvs == nil {
+				emit(Ev{"ev": "skip", "case": c.ID, "target": class, "why": "privileged"})
+			}
 			continue
 		}
 		// unfaulted reference save of the same document through the same entry point: gives the layout
 		ref := &sioRef{}
 		rt := x.target("newdir")
-		emit(x.call(via, rt, -1, ref))
+		emit(x.call(via, rt, -1, ref, true))
 		t := x.target(class)
 		if t == nil {
 			emit(Ev{"ev": "skip", "case": c.ID, "target": class, "why": "unknown-target"})
@@ -546,10 +635,10 @@ func runSaveIO(c Case, emit Emitter) {
 		}
 		if op.Str("plan") == "sweep" && ref.n0 > 0 && (class == "newdir" || class == "existing") {
 			for _, k := range sioOffsets(ref.n0, op.Int("points"), op.Int("edge")) {
-				emit(x.call(via, t, k, ref))
+				emit(x.call(via, t, k, ref, false))
 			}
 		}
 		// and without a limit (after the failed attempts, if any)
-		emit(x.call(via, t, -1, ref))
+		emit(x.call(via, t, -1, ref, false))
 	}
 }
